@@ -1,8 +1,8 @@
 (* C02 (part b) -- group laws of the 2-D pose classes SO2 and SE2 and of base.trinv2.
-   SO2.inv() / SE2.inv() build their result through the CHECKED constructor (isR: |R R' - I| < 100 eps and
-   det(R R') > 0).  The traces were taken on the path where the check passes; pc_SO2_inv / pc_SE2_inv are the two
-   recorded comparisons (lhs1 < rhs1, lhs2 > rhs2), and C02_SO2_inv_check_passes / C02_SE2_inv_check_passes prove
-   that every SO(2) / SE(2) argument is on that path, so the inverse laws below need no further side condition. *)
+   Since /repo 1c511ed SO2.inv() / SE2.inv() build their result with check=False, like the 3-D classes: their traces
+   are the plain transpose / structured inverse for ALL matrices, with no validity path condition (props/C02.py fails
+   closed if a comparison is recorded while tracing a pose class), so every statement below has exactly the shape
+   of its 3-D counterpart in C02_a.v. *)
 From Coq Require Import Reals ZArith Lra Lia Nsatz.
 From SM Require Import Base.Ops Base.Lin Base.RInst Base.RLin Model.C02_Pow.
 From SMgen Require Import Traces_C02.
@@ -38,17 +38,6 @@ Print Assumptions C02_SO2_identity.
 Theorem C02_SO2_inv_is_transpose : forall X : M22 R, tr_SO2_inv Rops X = mtr22 X.
 Proof. gen_ring. Qed.
 Print Assumptions C02_SO2_inv_is_transpose.
-
-(* the validity check inside SO2.inv() passes for every rotation (exact arithmetic: the residual is 0, det is 1) *)
-Theorem C02_SO2_inv_check_passes : forall X : M22 R, SO2 X ->
-  let '(l1, r1, l2, r2) := pc_SO2_inv Rops X in l1 < r1 /\ l2 > r2.
-Proof.
-  intros X H. destruct_tuples. pose proof (SO2_columns _ _ _ _ H) as (?&?&?). unfold SO2 in H. destruct H as (?&?&?&?).
-  gen_unfold. split.
-  - match goal with |- sqrt ?e < _ => replace e with 0 by nsatz end. rewrite sqrt_0. lra.
-  - match goal with |- ?e > 0 => replace e with 1 by nsatz end. lra.
-Qed.
-Print Assumptions C02_SO2_inv_check_passes.
 
 Theorem C02_SO2_inverse_defect : forall X : M22 R,
   tr_SO2_x_xinv Rops X = mmul22 Rops X (mtr22 X) /\ tr_SO2_xinv_x Rops X = mmul22 Rops (mtr22 X) X /\
@@ -112,17 +101,6 @@ Theorem C02_SE2_inv_is_trinv2 : forall X : M33 R,
   tr_SE2_inv Rops X = trinv2_ref X /\ tr_trinv2 Rops X = trinv2_ref X.
 Proof. intros; split; unfold trinv2_ref; gen_ring. Qed.
 Print Assumptions C02_SE2_inv_is_trinv2.
-
-Theorem C02_SE2_inv_check_passes : forall X : M33 R, SE2 X ->
-  let '(l1, r1, l2, r2) := pc_SE2_inv Rops X in l1 < r1 /\ l2 > r2.
-Proof.
-  intros X [H _]. destruct_tuples. unfold t2r2 in H.
-  pose proof (SO2_columns _ _ _ _ H) as (?&?&?). unfold SO2 in H. destruct H as (?&?&?&?).
-  gen_unfold. split.
-  - match goal with |- sqrt ?e < _ => replace e with 0 by nsatz end. rewrite sqrt_0. lra.
-  - match goal with |- ?e > 0 => replace e with 1 by nsatz end. lra.
-Qed.
-Print Assumptions C02_SE2_inv_check_passes.
 
 Theorem C02_SE2_inverse_defect : forall X : M33 R,
   let Rm := t2r2 X in let t := transl2 X in
